@@ -81,3 +81,7 @@ add("C19", "exploration", "bounded exhaustive enumeration of curves x keys x enc
     "All 17 curves x 7 keys (edge scalars, leading-zero coordinates and scalars) x every private/public DER, PEM and point-string form are encoded, decoded and parsed by OpenSSL; OpenSSL-written keys in 8 forms are decoded and canonical forms re-encoded byte-identically; the P-256 27-byte header assumption is checked; EVERY proper prefix and one-byte extension of every valid encoding must be rejected and EVERY position x 5 mutation classes must decode or raise a documented error (quick: 6 curves, thorough: all 17).",
     "OpenSSL 3 CLI trusted; documented decoder errors = UnexpectedDER, MalformedPointError, UnknownCurveError, ValueError, RuntimeError.",
     "E1+E3", "DESIGN.md 4/C19")
+add("C18", "exploration", "full product of curves x hashes x encodings with OpenSSL and an RFC 6979 reference as oracles, plus exhaustive single-bit tampering",
+    "Full product of 17 curves x 5 hashes x 3 encodings x canonisation: random and deterministic library signatures verify in the library and in OpenSSL, OpenSSL signatures verify in the library, deterministic signatures equal an independent RFC 6979 + textbook ECDSA reference; EVERY single-bit change of the message and of the encoded signature (all bits on 5 curves quick / all 17 thorough, one bit per byte otherwise), other keys, out-of-range r/s and truncated/extended encodings must be rejected with BadSignatureError.",
+    "OpenSSL 3 CLI and the RFC 6979 reference (pinned to RFC vectors) trusted; messages and keys are seed-derived.",
+    "E1+E3", "DESIGN.md 4/C18")
